@@ -184,7 +184,7 @@ func (x *World) Exec(i int, op Op) map[string]interface{} {
 
 	e := x.entity(op.E)
 	tgt := x.entity(op.Tgt)
-	withVals := op.Vals != nil
+	withVals := op.WithV
 
 	// handles of a batch-result query: entities are only known by iterating it
 	finishBatchQuery := func(r *result, q ecs.Query, creation bool) {
